@@ -70,6 +70,10 @@ async fn restart_restores_exactly_the_active_handlers() {
     wait_for(&store, |fs| fs.iter().any(|x| x.topic == "echoall.registered"), "echoall.registered").await;
     store.append(Frame::builder("note", ctx2).build()).unwrap();
     wait_for(&store, |fs| fs.iter().any(|x| x.topic == "echoall.out" && x.context_id == ctx2), "echoall.out").await;
+    // a handler stopped by a failing invocation (no .unregister request frame exists for it) stays stopped across a restart
+    let fragile = reg("fragile", r#"{run: {|frame| if $frame.topic != "kaboom" { return }; $frame.meta.nope.nope }}"#).await;
+    store.append(Frame::builder("kaboom", ctx).build()).unwrap();
+    wait_for(&store, |fs| fs.iter().any(|x| x.topic == "fragile.unregistered" && meta_str(x, "handler_id") == fragile.id.to_string()), "fragile.unregistered").await;
     // a trigger answered BEFORE the restart must not be answered again after it (handlers resume from the tail by default)
     let old_ping = store.append(Frame::builder("ping", ctx).build()).unwrap();
     wait_for(&store, |fs| fs.iter().filter(|x| meta_str(x, "frame_id") == old_ping.id.to_string()).count() >= 4, "four answers to the old ping").await;
@@ -107,6 +111,8 @@ async fn restart_restores_exactly_the_active_handlers() {
     let again_others = all.iter().filter(|x| meta_str(x, "frame_id") == old_ping.id.to_string() && meta_str(x, "handler_id") != cursor.id.to_string()).count();
     assert_eq!(again_others, 3, "C17: a historical trigger is not executed again after a restart (handlers resuming from the tail)");
     let _ = again;
+    assert!(!all[before.len()..].iter().any(|x| x.topic.starts_with("fragile.")), "C17/C16: a handler that was stopped by an error is not started again by a restart: {:?}",
+            all[before.len()..].iter().filter(|x| x.topic.starts_with("fragile.")).map(|x| x.topic.clone()).collect::<Vec<_>>());
     let new_regs = all.len() - before.len();
     assert!(!all[before.len()..].iter().any(|x| x.topic == "gone.registered" || (x.topic == "h.registered" && meta_str(x, "handler_id") == h1.id.to_string())),
             "C17: nothing that was unregistered or replaced comes back ({} new frames)", new_regs);
